@@ -174,11 +174,13 @@ Proof.
     + intros c1 n2 L2 Hc. eapply bd_bind; [apply bd_node_uuid_lo|]. intros u n3 L3 [Hu Hm].
       apply bd_ret; [apply up_dpst|].
       eapply (dpst_add lo n1 n3); [lia|exact W1|lia|exact Hu|intros m X; specialize (Hm m X); lia|exact I|eapply up_bcont; [|exact Hc]; lia].
-  - eapply bd_bind; [apply bd_with_tt|]. intros _ n1 L1 _.
+  - eapply bd_bind; [apply bd_with_tt|]. intros _ n1' L1' _.
+    eapply bd_bind; [apply bd_read|]. intros d0 n1 L1'' _.
+    assert (L1 : n0 <= n1) by lia.
     assert (W1 : dpst lo n1 a) by (eapply up_dpst; eassumption).
     assert (LO1 : lo <= n1) by lia.
     eapply bd_bind with (Q := dpst lo).
-    + clear W L1 LO. revert n1 a W1 LO1. induction its as [|it rest IHits]; intros n1 a W1 LO1.
+    + clear W L1 L1'' LO. revert n1 a W1 LO1. induction its as [|it rest IHits]; intros n1 a W1 LO1.
       * apply bd_ret; [apply up_dpst|exact W1].
       * eapply bd_bind; [apply bd_sp|]. intros _ n2 L2 _.
         assert (W2 : dpst lo n2 a) by (eapply up_dpst; eassumption).
@@ -189,7 +191,9 @@ Proof.
            ++ eapply bd_bind; [apply Hx; [exact LO2|exact W2]|]. intros a1 n3 L3 W3. apply IHt; [exact W3|lia].
         -- intros a' n3 L3 W3. eapply bd_bind; [apply bd_with_tt|]. intros _ n4 L4 _.
            apply IHits; [eapply up_dpst; eassumption|lia].
-    + intros a1 n2 L2 W2. eapply bd_bind; [apply bd_remove|]. intros _ n3 L3 _.
+    + intros a1 n2 L2 W2. eapply bd_bind; [apply bd_skip_empty_body|]. intros _ n3' L3' _.
+      eapply bd_bind; [apply bd_leave_loop|]. intros _ n3 L3'' _.
+      assert (L3 : n2 <= n3) by lia.
       apply bd_ret; [apply up_dpst|]. eapply up_dpst; eassumption.
   - apply bd_with, bd_throw.
   - eapply bd_bind; [apply bd_with_tt|]. intros _ n1 L1 _. apply bd_with, bd_throw.
